@@ -3,4 +3,5 @@ driven by tools/check.py (run_ct_valgrind)."""
 from . import c05k
 
 def generate(rng, tier, ctx):
-    return [(l, t) for l, t in c05k.generate(rng, tier, ctx) if l.startswith('k_run ct.')]
+    # (c05k yields (line, tag) or (line, tag, specified result))
+    return [c for c in c05k.generate(rng, tier, ctx) if c[0].startswith('k_run ct.') or c[0].startswith('k_run ct32.')]
